@@ -357,9 +357,18 @@ def rename_code(co, newname):  # pragma: no cover
         )
 
 
+_code_ids = count()
+
+
 def rename_function(fn, newname):
     """Create a copy of the function with a different name."""
     newcode = rename_code(fn.__code__, newname)
+    if hasattr(newcode, "replace"):
+        # Code objects compare by value, and call_next identifies its caller
+        # by code object: copies of the same function (e.g. closures made by
+        # a factory, registered for the same types) must not compare equal.
+        marker = f"<ovld code {next(_code_ids)}>"
+        newcode = newcode.replace(co_consts=(*newcode.co_consts, marker))
     new_fn = FunctionType(
         newcode, fn.__globals__, newname, fn.__defaults__, fn.__closure__
     )
